@@ -18,6 +18,17 @@ TIE_A = ["Norm.", "Hedge.", "Term.", "code:fuzzylite.engine.Engine.restart", "co
          "code:fuzzylite.rule.RuleBlock.reload_rules", "code:fuzzylite.rule.RuleBlock.load_rules",
          "code:fuzzylite.rule.RuleBlock.unload_rules", "code:fuzzylite.rule.Rule.load", "code:fuzzylite.rule.Rule.unload",
          "code:fuzzylite.engine.Engine.copy"]
+
+# fifth wave: the constructors of the component classes as record builders (block "Tie A: constructors" of Props/C13.lean)
+TIE_A += [
+    "code:fuzzylite.term.Term.__init__", "code:fuzzylite.variable.Variable.__init__",
+    "code:fuzzylite.variable.InputVariable.__init__", "code:fuzzylite.term.Aggregated.__init__",
+    "code:fuzzylite.variable.OutputVariable.__init__", "code:fuzzylite.term.Activated.degree.fset",
+    "code:fuzzylite.term.Activated.__init__", "code:fuzzylite.rule.Proposition.__init__",
+    "code:fuzzylite.rule.Operator.__init__", "code:fuzzylite.rule.Antecedent.__init__",
+    "code:fuzzylite.rule.Consequent.__init__", "code:fuzzylite.rule.Rule.__init__", "code:fuzzylite.rule.Rule.create",
+    "code:fuzzylite.rule.RuleBlock.__init__", "code:fuzzylite.engine.Engine.__init__",
+]
 RULE = ("operation sequences (length <= 8 quick / 12 thorough) of {set inputs, process, restart, copy and switch to the copy, "
         "edit a parameter of the current engine (term height, rule weight, Linear coefficient), toggle an enabled flag - "
         "process - restore} on generated engines (General activation; Mamdani / Takagi-Sugeno with Linear terms holding an "
